@@ -2,6 +2,7 @@ package main
 
 import (
 	"fmt"
+	"math"
 	"os"
 	"strconv"
 	"strings"
@@ -231,6 +232,13 @@ func genC05(g *G) {
 					}
 				}
 			}
+		}
+		if c%6 == 0 {
+			// negative offsets (documented panic) and the ends of the int range: nothing is removed or reported
+			for _, k := range []int{-1, math.MinInt64, math.MaxInt64, -(1 << 32), 1 << 32} {
+				ops = append(ops, fmt.Sprintf("peek %d", k), fmt.Sprintf("remove %d", k))
+			}
+			ops = append(ops, "len")
 		}
 		// drain
 		for i := 0; i < n+1 && i < 40; i++ {
